@@ -137,6 +137,53 @@ fn main() {
     // Vec built from reversed chars pops in forward order (ASSUMED[vec-rev-stack])
     for s in strings(&['a', 'b', ','], 4) { let mut st: Vec<char> = s.chars().rev().collect(); let mut out = String::new(); while let Some(c) = st.pop() { out.push(c); } chk!(out == s, "rev stack {:?}", s); }
 
+    // ---- E. contracts assumed by the traversal / adaptor units: str::find / rfind, Peekable::next_if / peek, slice::sort_by, Iterator::any,
+    //         Iterator::collect on `&mut self`, HashSet iteration, Option::or / xor, Result::unwrap_or
+    for s in &strs2 { for t in &strs2 {
+        let (a, b): (Vec<char>, Vec<char>) = (s.chars().collect(), t.chars().collect());
+        let occ = |k: usize| k + b.len() <= a.len() && a[k..k + b.len()] == b[..];
+        let bl = |k: usize| a[..k].iter().map(|c| c.len_utf8()).sum::<usize>();
+        let first = (0..=a.len()).find(|k| occ(*k)).map(bl);
+        let last = (0..=a.len()).rev().find(|k| occ(*k)).map(bl);
+        chk!(s.find(t.as_str()) == first, "find {:?} {:?}", s, t);
+        chk!(s.rfind(t.as_str()) == last, "rfind {:?} {:?}", s, t);
+    } }
+    for n in 0..6usize { for th in 0..7usize {
+        let v: Vec<usize> = (0..n).collect();
+        // next_if: pops the front item iff the predicate accepts it
+        let mut it = v.clone().into_iter().peekable();
+        let r = it.next_if(|x| *x < th);
+        let rest: Vec<usize> = it.collect();
+        if n > 0 && 0 < th { chk!(r == Some(0) && rest == v[1..].to_vec(), "next_if pop {} {}", n, th); } else { chk!(r.is_none() && rest == v, "next_if keep {} {}", n, th); }
+        let mut it = v.clone().into_iter().peekable();
+        chk!(it.peek().copied() == v.first().copied() && it.collect::<Vec<_>>() == v, "peek {}", n);
+        // any: true iff the closure answers true for some element
+        chk!(v.iter().any(|x| *x == th) == (th < n), "any {} {}", n, th);
+        // collect through `&mut self` drains the iterator
+        let mut it = v.clone().into_iter(); let got: Vec<usize> = (&mut it).collect(); chk!(got == v && it.next().is_none(), "collect by_ref {}", n);
+    } }
+    // sort_by: a permutation, ordered by the comparator, stable
+    for s in strings(&['a', 'b', 'c'], 5) {
+        let v: Vec<(char, usize)> = s.chars().enumerate().map(|(i, c)| (c, i)).collect();
+        let mut w = v.clone();
+        w.sort_by(|x, y| x.0.cmp(&y.0));
+        let mut a = v.clone(); let mut b = w.clone(); a.sort(); b.sort();
+        chk!(a == b, "sort_by permutation {:?}", s);
+        chk!(w.windows(2).all(|p| p[0].0 <= p[1].0), "sort_by ordered {:?}", s);
+        chk!(w.windows(2).all(|p| p[0].0 != p[1].0 || p[0].1 < p[1].1), "sort_by stable {:?}", s);
+    }
+    // HashSet iteration: every element exactly once
+    for s in strings(&['a', 'b', 'c'], 4) {
+        let hs: std::collections::HashSet<String> = s.chars().map(|c| c.to_string()).collect();
+        let mut seen: Vec<String> = hs.iter().cloned().collect(); let n = seen.len(); seen.sort(); seen.dedup();
+        chk!(seen.len() == n && n == hs.len() && s.chars().all(|c| seen.contains(&c.to_string())), "hashset iter {:?}", s);
+    }
+    for a in [None, Some(1)] { for b in [None, Some(2)] {
+        chk!(a.or(b) == if a.is_some() { a } else { b }, "Option::or");
+        chk!(a.xor(b) == match (a, b) { (Some(x), None) => Some(x), (None, Some(y)) => Some(y), _ => None }, "Option::xor");
+    } }
+    for r in [Ok::<u8, u8>(1), Err(2)] { chk!(r.unwrap_or(9) == match r { Ok(v) => v, Err(_) => 9 }, "Result::unwrap_or"); }
+
     println!("AUDIT checks={} failures={}", checks, fails.len());
     for f in &fails { println!("PRELUDE-AUDIT-FAIL {}", f); }
     std::process::exit(if fails.is_empty() { 0 } else { 2 });
